@@ -77,10 +77,14 @@ class AbsPDF:
 
     @contextlib.contextmanager
     def temp_params(self, var):
-        params = self.get_params()
-        self.set_params(var)
-        yield var
-        self.set_params(params)
+        # save the stored values: get_params() would return the masked view inside mask_params
+        params = {k: v.numpy() for k, v in self.vm.variables.items()}
+        try:
+            self.set_params(var)
+            yield var
+        finally:
+            for k, v in params.items():
+                self.vm.variables[k].assign(v)
 
     @contextlib.contextmanager
     def mask_params(self, var):
@@ -191,9 +195,11 @@ class BaseAmplitudeModel(AbsPDF):
         old_mask = [getattr(i, "mask_factor", False) for i in mask_part]
         for i in mask_part:
             i.mask_factor = True
-        yield
-        for i, j in zip(mask_part, old_mask):
-            i.mask_factor = j
+        try:
+            yield
+        finally:
+            for i, j in zip(mask_part, old_mask):
+                i.mask_factor = j
 
 
 @register_amp_model("default")
